@@ -79,7 +79,18 @@ def spec():
                             "requestBody": {"required": True, "content": {"application/json": {"schema": {"$ref": "#/components/schemas/Item"}},
                                                                           "application/x-www-form-urlencoded": {"schema": {"type": "object"}}}},
                             "responses": {"200": ok}}},
-    }, schemas={"Item": ITEM})
+        # enum-typed parameters in every location (the wire carries the member's VALUE)
+        "/paint/{tone}": {"get": {"operationId": "paintIt", "parameters": [
+            _p("tone", "path", True, {"$ref": "#/components/schemas/Color"}), _p("color", "query", False, {"$ref": "#/components/schemas/Color"}),
+            _p("colors", "query", False, {"type": "array", "items": {"$ref": "#/components/schemas/Color"}}), _p("level", "query", False, {"$ref": "#/components/schemas/Level"}),
+            _p("X-Color", "header", False, {"$ref": "#/components/schemas/Color"}), _p("sid", "cookie", False, {"$ref": "#/components/schemas/Color"})],
+            "responses": {"200": ok}}},
+        # header parameters that are not strings: httpx accepts only text as a header value
+        "/tune": {"get": {"operationId": "tuneIt", "parameters": [
+            _p("X-Depth", "header", False, {"type": "integer"}), _p("X-Flag", "header", False, {"type": "boolean"}),
+            _p("X-Ids", "header", False, {"type": "array", "items": {"type": "integer"}}), _p("X-Name", "header", False), _p("k", "query", False, {"type": "integer"})],
+            "responses": {"200": ok}}},
+    }, schemas={"Item": ITEM, "Color": {"type": "string", "enum": ["red", "dark-blue"]}, "Level": {"type": "integer", "enum": [1, 2]}})
 
 
 # The harness's own statement of each operation (python argument name, spec name, location, required, kind) — written from
@@ -105,6 +116,9 @@ OPS = {
     "send_xml": dict(method="PUT", path="/xml", params=[], body=("bytes_content", "data", "bytes")),
     "get_snapshot": dict(method="GET", path="/snapshots/{takenAt}/{day}", params=[
         ("taken_at", "takenAt", "path", True, "datetime"), ("day", "day", "path", True, "date"), ("since", "since", "query", False, "datetime")], body=None),
+    "paint_it": dict(method="GET", path="/paint/{tone}", params=[
+        ("tone", "tone", "path", True, "color"), ("color", "color", "query", False, "color"), ("colors", "colors", "query", False, "colorlist"),
+        ("level", "level", "query", False, "level"), ("x_color", "X-Color", "header", False, "color"), ("sid", "sid", "cookie", False, "color")], body=None),
     "send_multi/json": dict(method="POST", path="/multi/{takenAt}/{n}", py="send_multi", params=[
         ("taken_at", "takenAt", "path", True, "datetime"), ("n", "n", "path", True, "int"), ("mode", "mode", "query", None, "str"), ("x_m", "X-M", "header", None, "str"),
         ("sid", "sid", "cookie", None, "str")], body=("body", "json", "item")),
@@ -192,7 +206,22 @@ def build_arg(models, kind, v):
         import io
 
         return {"file": io.BytesIO(BYTES[v])}  # the declared type is dict[str, IO[Any]]
+    if kind == "color":
+        return list(models.Color)[v]
+    if kind == "colorlist":
+        return [list(models.Color)[i] for i in v]
+    if kind == "level":
+        return list(models.Level)[v]
     raise KeyError(kind)
+
+
+ENUM_VALUES = {"color": ["red", "dark-blue"], "level": [1, 2]}
+
+
+def _enum_wire(kind, v):
+    if kind == "colorlist":
+        return [ENUM_VALUES["color"][i] for i in v]
+    return ENUM_VALUES[kind][v]
 
 
 def call(instrumented, opname, args):
@@ -210,17 +239,26 @@ def call(instrumented, opname, args):
     r = drive(getattr(c, op.get("py", opname))(**kw))
     out = []
     for m, u, k in rec.calls:
-        out.append((m, u, {kk: _plain(vv) for kk, vv in k.items()}))
+        out.append((m, u, {kk: _plain(vv, kk) for kk, vv in k.items()}))
     return out
 
 
-def _plain(v):
+def _plain(v, where=None):
+    """what the recording transport notes.  An Enum member is noted as httpx would put it on the wire: `str(member)` in
+    the query string and in cookies (httpx's primitive_value_to_str), the underlying text for a str-valued header
+    (`value.encode()`), a marker for any other header value (httpx raises TypeError there)."""
+    import enum
+
     if hasattr(v, "getvalue"):
         return ("io", v.getvalue())
     if isinstance(v, dict):
-        return [(k, _plain(x)) for k, x in v.items()]
+        return [(k, _plain(x, where)) for k, x in v.items()]
     if isinstance(v, (list, tuple)):
-        return [_plain(x) for x in v]
+        return [_plain(x, where) for x in v]
+    if isinstance(v, enum.Enum):
+        if where == "headers":
+            return str.__str__(v) if isinstance(v, str) else ("httpx TypeError: header value", repr(v))
+        return str(v)
     return v
 
 
@@ -284,6 +322,8 @@ def expected_url(op, args):
             v = DATETIMES[v].isoformat()
         elif py[4] == "date":
             v = DATES[v].isoformat()
+        elif py[4] in ENUM_VALUES:
+            v = _enum_wire(py[4], v)
         if isinstance(v, SymInt):
             v = symint_to_str(v)
         elif isinstance(v, int):
@@ -334,8 +374,10 @@ class RequestOb(Obligation):
                 return v
             if kind in ("bytes", "filedict"):
                 return e.choose(len(BYTES))
-            if kind in ("datetime", "date"):
+            if kind in ("datetime", "date", "color", "level"):
                 return e.choose(2)
+            if kind == "colorlist":
+                return [e.choose(2) for _ in range(e.choose(3))]
             raise KeyError(kind)
 
         for py, orig, where, req, kind in op["params"]:
@@ -378,6 +420,8 @@ class RequestOb(Obligation):
                     val = DATETIMES[val].isoformat()
                 elif kind == "date":
                     val = DATES[val].isoformat()
+                elif kind in ("color", "level", "colorlist"):
+                    val = _enum_wire(kind, val)
                 exp[where].append((orig, val))
         for where, key in (("query", "params"), ("header", "headers"), ("cookie", "cookies")):
             if not _items_eq(kw.get(key), exp[where]):
@@ -423,6 +467,126 @@ class RequestOb(Obligation):
 
 def mk(opname, slen):
     return RequestOb(opname, slen)
+
+
+# ------------------------------------------------------------------ typed header parameters down to the httpx boundary
+class _HttpxContract:
+    """Stands where httpx.AsyncClient is: records the call and enforces httpx's own contract for header values
+    (`Header value must be str or bytes`, httpx/_models.py: _normalize_header_value)."""
+
+    def __init__(self):
+        self.calls = []
+
+    async def request(self, method, url, **kw):
+        for k, v in (kw.get("headers") or {}).items():
+            if not isinstance(v, (str, bytes, SymStr)):
+                raise TypeError("Header value must be str or bytes, not %s" % type(v).__name__)
+        self.calls.append((method, url, kw))
+
+        class R:
+            status_code = 200
+            text = ""
+            headers = {}
+
+            def json(self):
+                return {"name": "n"}
+
+        return R()
+
+
+def call_typed_headers(instrumented, args):
+    """the generated `tune_it` on the client package's OWN HttpxTransport (core/http_transport.py as copied into the client)"""
+    ep, models = pkgs(instrumented)
+    tr = importlib.import_module(ep.__name__.rsplit(".endpoints.", 1)[0] + ".core.http_transport")
+    import httpx
+
+    real = httpx.AsyncClient
+    try:
+        httpx.AsyncClient = lambda **kw: None
+        t = tr.HttpxTransport(base_url="http://h")
+    finally:
+        httpx.AsyncClient = real
+    stub = _HttpxContract()
+    t._client = stub
+    c = ep.DefaultClient(t, "http://h")
+    kw = {k: (list(v) if isinstance(v, list) else v) for k, v in args.items()}
+    drive(c.tune_it(**kw))
+    return [(m, u, {kk: _plain(vv, kk) for kk, vv in k.items()}) for m, u, k in stub.calls]
+
+
+class TypedHeaders(Obligation):
+    functions = ["pyopenapi_gen.visit.endpoint.generators.url_args_generator:EndpointUrlArgsGenerator.generate_url_and_args",
+                 "pyopenapi_gen.core.http_transport:HttpxTransport.request", "pyopenapi_gen.core.http_transport:HttpxTransport._prepare_headers",
+                 "pyopenapi_gen.core.utils:DataclassSerializer.serialize"]
+    alphabet = VAL
+
+    def __init__(self, slen):
+        self.slen = slen
+        self.name = "typed_headers/strlen=%d" % slen
+        self.bounds = {"operation": "tune_it: header parameters integer, boolean, array of integer, string; one integer query parameter", "ints": "-999..99999", "array_length": "0..2",
+                       "optional_arguments": "every subset", "string_length": slen}
+
+    def make_inputs(self, e):
+        a = {}
+        if e.choose(2):
+            a["x_depth"] = mk_sym_int("d", -999, 99999)
+        if e.choose(2):
+            a["x_flag"] = mk_sym_bool("f")
+        if e.choose(2):
+            a["x_ids"] = [mk_sym_int("i%d" % k, -999, 99999) for k in range(e.choose(3))]
+        if e.choose(2):
+            a["x_name"] = mk_sym_str(self.slen, "n", VAL)
+        if e.choose(2):
+            a["k"] = mk_sym_int("k", -999, 99999)
+        return {"args": a}
+
+    def run_sym(self, inp):
+        return call_catching(call_typed_headers, True, inp["args"])
+
+    def run_real(self, inp):
+        return call_catching(call_typed_headers, False, inp["args"])
+
+    def verdict(self, inp, r):
+        from symx.hook import symint_to_str
+
+        a = inp["args"]
+        if isinstance(r, Raised):
+            return False, "the call raised %r" % (r,)
+        if len(r) != 1:
+            return False, "%d requests reached httpx" % len(r)
+        m, u, kw = r[0]
+
+        def num(x):
+            return symint_to_str(x) if isinstance(x, SymInt) else str(x)
+
+        exp = []
+        if "x_depth" in a:
+            exp.append(("X-Depth", num(a["x_depth"])))
+        if "x_flag" in a:
+            exp.append(("X-Flag", "true" if bool(a["x_flag"]) else "false"))
+        if "x_ids" in a:
+            parts = [num(x) for x in a["x_ids"]]
+            txt = parts[0] if parts else ""
+            for q in parts[1:]:
+                txt = txt + "," + q
+            exp.append(("X-Ids", txt))
+        if "x_name" in a:
+            exp.append(("X-Name", a["x_name"]))
+        if not _items_eq(kw.get("headers"), exp):
+            return False, "headers handed to httpx %r, expected %r" % (kw.get("headers"), exp)
+        if not _items_eq(kw.get("params"), [("k", a["k"])] if "k" in a else []):
+            return False, "params handed to httpx %r" % (kw.get("params"),)
+        return True, ""
+
+    def prop(self, inp, r):
+        return self.verdict(inp, r)[0]
+
+    def describe_violation(self, inp, r):
+        return "tune_it(%r): %s" % (inp["args"], self.verdict(inp, r)[1])
+
+
+def mk_typed_headers(slen):
+    return TypedHeaders(slen)
 
 
 # ------------------------------------------------------------------ lemmas over all names
@@ -733,6 +897,7 @@ def specs(tier):
         out.append((MOD, "mk_named", (kind, 1)))
     # below the generated method: the bundled transport hands params / cookies / json / data to httpx unchanged, and a
     # second request on the same transport carries nothing of the first (obligations of props/c17.py without auth plugins)
+    out.append((MOD, "mk_typed_headers", (1,)))
     out.append(("props.c17", "mk", (0, "passthrough")))
     out.append(("props.c17", "mk", (0, "history")))
     for n in (range(0, 4) if tier == "quick" else range(0, 6)):
@@ -776,6 +941,9 @@ def replay(path):
         parts = name.split("/")
         opname = "/".join(parts[1:-1])
         ob = RequestOb(opname, int(parts[-1].split("=")[1]))
+    elif name.startswith("typed_headers/"):
+        prepare()
+        ob = TypedHeaders(int(name.split("=")[1]))
     elif name.startswith("named_param/"):
         prepare()
         ob = NamedParam({"query": "q", "header": "h", "cookie": "c"}[name.split("/")[1]], int(name.split("=")[1]))
